@@ -92,6 +92,34 @@ let gen_closed ~(tier : string) ~(seed : int) ~(emit : Sexp.t -> unit) : unit =
     (TBin (OSum, h1, h0), TBin (OSum, h0, TBin (OProd, h1, TLit (z_of_int 2))));
     (TApp (TApp (TBool, h1), h0), TApp (TApp (TBool, h0), TPi (false, h1, TInt)));
     (TIf (TBool, h1, h0), TIf (TBool, h0, TLam (false, TInt, THole (S O, S O)))) ];
+  (* a hole written outside some binders, met underneath them, against a term with binders of its own under
+     which sits a second, still unsolved hole written in a scope between the two: lowering the term to the first
+     hole's scope must fail exactly when the second hole's scope is lost (every combination of depths, both
+     binder kinds, the second hole bare or inside an operand / argument / domain) *)
+  for nout = 1 to 3 do
+    for sh = 1 to nout do
+      for c = 1 to 2 do
+        for sk = 0 to c + nout do
+          for shape = 0 to 4 do
+            for bk = 0 to 1 do
+              let k = THole (S O, nat_of_int sk) in
+              let core = (match shape with
+                  | 0 -> k
+                  | 1 -> TBin (OSum, k, TLit (z_of_int 1))
+                  | 2 -> TApp (TVar O, k)
+                  | 3 -> TPi (false, k, TInt)
+                  | _ -> TIf (TVar O, k, k)) in
+              let rec wrap n t = if n = 0 then t else wrap (n - 1) (if bk = 0 then TLam (false, TInt, t) else TPi (false, TInt, t)) in
+              let rhs = wrap c core in
+              let outer n t = let rec go n t = if n = 0 then t else go (n - 1) (TLam (false, TInt, t)) in go n t in
+              let a = outer nout (THole (O, nat_of_int sh)) and b = outer nout rhs in
+              emit (case_unify a b); emit (case_unify b a)
+            done
+          done
+        done
+      done
+    done
+  done;
   (* the same shape with random right-hand sides that mention ?1 somewhere *)
   let h0 = THole (O, O) and h1 = THole (S O, O) in
   for _ = 1 to (if tier = "quick" then 400 else 4000) do
